@@ -68,7 +68,8 @@ def check_held(acc, m, e, n, unit, pwm):
 
 def bounds(tier):
     return {'m_max': 25 if tier == 'quick' else 99, 'e': [0, 1, 2, 3], 'n_max': 60 if tier == 'quick' else 120,
-            'units': UNITS, 'continuation': 'n2 in {2,3,7} after n1 = n'}
+            'units': UNITS, 'continuation': 'n2 in {2,3,7} after n1 = n',
+            'long_runs_n_max': 200 if tier == 'quick' else 1000}
 
 
 def shards(tier):
@@ -242,6 +243,13 @@ def run_shard(shard, tier):
                         for pwm in (0, 1, -1):
                             check_held(acc, m, e, n, unit, pwm)
                             acc.nstates += 1
+    # long runs: the quotient T/dt of a decimal step drifts below / above the integer n by an error that grows with n
+    lo, hi = (nmax + 1, 200) if tier == 'quick' else (nmax + 1, 1000)
+    for n in range(lo, hi + 1):
+        unit = UNITS[(n + m) % 4]
+        check_run(acc, m, shard['e'], n, 'lit' if n % 2 else 'mul', unit, cont=((5, 'lit') if n % 50 == 0 else None))
+        acc.nstates += 1
+        acc.cases += 1
     acc.sample({'dt': f'{m}e-2', 'n': 30, 'T': 'dt*n and decimal literal', 'units': UNITS})
     return acc
 
